@@ -9,7 +9,8 @@ PREAMBLE = ("int i;\nint j = 1;\nclock x;\nchan c;\nbroadcast chan b;\nconst int
             "typedef int[0,2] id_t;\nbool pos(int v) { return v > 0; }\n")
 BASE_FUNS = ["pos"]
 ACTIONS = ["GDecl", "OpenTemplate", "LDecl", "AddLoc", "AddBp", "SetInit", "AddEdge", "Label", "StartSystem", "AddInst", "AddProc", "AddSysX", "Finish"]
-BUILTIN_TYPES = ["int8_t", "uint8_t", "int16_t", "uint16_t", "int32_t"]
+BUILTIN_TYPES = ["int8_t", "uint8_t", "int16_t", "uint16_t", "int32_t"]      # replaced by what an empty model declares (builtin_vars)
+BUILTIN_FUNS = []
 
 PROFILES = {
     # name: constants of DocGen.tla ; different profiles balance the random walk toward different parts of the universe
@@ -225,7 +226,7 @@ def project(doc, builtin_vars):
     tds = [x["name"] for x in g["typedefs"]]
     return {"gvars": gv, "templates": ts, "instances": [_inst(i) for i in doc["instances"]],
             "processes": [_inst(p) for p in doc["processes"]], "priorities": doc["has_priorities"],
-            "gfuns": [f["name"] for f in g["funs"]], "gtypes": tds[ntd:] if tds[:ntd] == BUILTIN_TYPES else ["<<builtin types differ>>"] + tds, "features": feats}
+            "gfuns": [f["name"] for f in g["funs"]][len(BUILTIN_FUNS):], "gtypes": tds[ntd:] if tds[:ntd] == BUILTIN_TYPES else ["<<builtin types differ>>"] + tds, "features": feats}
 
 
 def diff(exp, got, path=""):
@@ -267,4 +268,6 @@ def builtin_vars(c):
              "text": xmlgen.render_xml({"decl": "", "templates": [{"name": "T", "locations": [{"id": "id0"}], "init": "id0"}], "system": "system T;"})}
         r = vf.run_jobs([j], c.run_dir, variant="plain", name="builtin")["builtin"]
         _BUILTINS = [v["name"] for v in r["dump"]["doc"]["globals"]["vars"]]
+        BUILTIN_TYPES[:] = [x["name"] for x in r["dump"]["doc"]["globals"]["typedefs"]]        # likewise the built-in type names, whatever they are in this tree
+        BUILTIN_FUNS[:] = [x["name"] for x in r["dump"]["doc"]["globals"]["funs"]]
     return _BUILTINS
